@@ -194,6 +194,39 @@ def install(E):
     X['str_mul'] = str_mul
 
     def m_format(e, n, o, pos, kws, st, k):
+        """'...{0}...{1}...'.format(a, b) for a constant template with positional fields only: the concatenation of the literal
+        pieces and str() of the arguments (T-FMT); anything else: some string"""
+        tmpl = z3.simplify(o.t)
+        if z3.is_string_value(tmpl) and not kws:
+            import re as _re
+            txt = tmpl.as_string()
+            parts = _re.split(r'\{(\d*)\}', txt)
+            if '{' not in ''.join(parts[0::2]) and '}' not in ''.join(parts[0::2]):
+                pieces = []
+                auto = 0
+                ok = True
+                for i, p_ in enumerate(parts):
+                    if i % 2 == 0:
+                        if p_:
+                            pieces.append(z3.StringVal(p_))
+                    else:
+                        idx = int(p_) if p_ != '' else auto
+                        auto += 1
+                        if idx >= len(pos):
+                            ok = False
+                            break
+                        a = pos[idx]
+                        if a.ty.kind == 'str':
+                            pieces.append(a.t)
+                        elif a.ty.kind == 'int':
+                            pieces.append(StrOfInt(a.t))
+                        else:
+                            ok = False
+                            break
+                if ok:
+                    if not pieces:
+                        return k(st, mk_str(''))
+                    return k(st, SV(STR, z3.Concat(*pieces) if len(pieces) > 1 else pieces[0]))
         return k(st, fresh_str('format'))
     M[('str', 'format')] = m_format
 
@@ -567,24 +600,45 @@ def install(E):
             probe = s.fork()
             probe.assume(0 <= j, j < ln)
             outs = []
-            saved_handler = probe.ctl
-            def bad_handler(s2, exc):
-                raise Unsupported('comprehension element may raise ' + exc.cls)
-            probe.ctl = probe.ctl.but(handler=bad_handler)
+            excs = []
+            def exc_handler(s2, exc):
+                excs.append((exc, s2))
+            probe.ctl = probe.ctl.but(handler=exc_handler)
+            n_pc = len(probe.pc)
             x = elem_at(probe, j)
             probe.assume_wf(x)
             e.assign(g.target, x, probe, lambda s2: e.ev(n.elt, s2, lambda s3, v: outs.append((s3, v))))
             if len(outs) != 1:
                 raise Unsupported('comprehension element forks')
             s3, v = outs[0]
-            if s3.heap != probe.heap and any(s3.heap.get(f) is not s.heap.get(f) for f in s3.heap if f in s.heap):
-                raise Unsupported('comprehension element has side effects')
             ety = v.ty
+            extra = s3.pc[n_pc:]
+            # an element whose evaluation raises makes the whole comprehension raise: it raises E iff some element does
+            # (the conditions come from the callee contracts; first failing element wins - only the exception class matters here)
+            if excs:
+                def run_normal(sn):
+                    finish(sn)
+                def chain(i, sc):
+                    if i == len(excs):
+                        return finish(sc)
+                    exc, se = excs[i]
+                    cond = z3.And(*se.pc[n_pc:]) if se.pc[n_pc:] else z3.BoolVal(True)
+                    some = z3.Exists([j], z3.And(0 <= j, j < ln, cond))
+                    e.branch(sc, some, lambda sr: e.raise_(sr, exc), lambda sk: chain(i + 1, sk), note='comp-raises@%s' % n.lineno)
+                def finish(sf):
+                    build(sf)
+                def build(sf):
+                    r = sf.new_list_sym(ety, ln)
+                    er = sf.list_elems(r)
+                    body = z3.And(z3.Select(er, j) == pack(v, ety), *[c for c in extra])
+                    guard = z3.And(0 <= j, j < ln)
+                    pats = [z3.Select(er, j)] + ([src_pat(j)] if src_pat is not None else [])
+                    sf.assume(forall([j], z3.Implies(guard, body), patterns=pats))
+                    k(sf, r)
+                return chain(0, s)
             r = s.new_list_sym(ety, ln)
             er = s.list_elems(r)
-            # extra path facts of the probe (e.g. well-formedness) are universally valid consequences
-            extra = s3.pc[len(s.pc):]
-            body = z3.And(z3.Select(er, j) == pack(v, ety), *[c for c in extra[2:]])
+            body = z3.And(z3.Select(er, j) == pack(v, ety), *[c for c in extra])
             guard = z3.And(0 <= j, j < ln)
             pats = [z3.Select(er, j)] + ([src_pat(j)] if src_pat is not None else [])
             s.assume(forall([j], z3.Implies(guard, body), patterns=pats))
